@@ -254,6 +254,10 @@ class SpecProtocol:
             if isinstance(recv, Sym) and "specinst" in recv.tags and name in ("__setattr__", "__delattr__"):
                 fi = self.setattr_closure if name == "__setattr__" else self.delattr_closure
                 return interp.call_function(st, FuncV(fi, None), [recv] + list(args), kwargs, frame, node)
+            if isinstance(recv, Sym) and name == "__new__" and strip_copy(recv.tok) == ("self", ".__class__"):
+                # type(self).__new__(type(self)): a new, empty instance of the same spec class
+                return [Outcome("ok", st, Sym(("new", interp.site(frame, node)), {FRESH},
+                                              tags={"specinst", "nonsentinel"}))]
         return None
 
     # external models ------------------------------------------------------
@@ -363,6 +367,8 @@ def assumption_env(frozen=None, do_not_copy=None, initializing=False, attr_do_no
                 return attr_do_not_copy
             if tok[-1] == ".__spec_class__":
                 return True
+        if key[0] == "in" and isinstance(key[1], str) and "__spec_class_initializing__" in key[1]:
+            return False    # the initialising flag is never a managed attribute
         if key[0] == "hasattr" and isinstance(key[1], tuple):
             if key[2] == "__spec_class__" and key[1][-1:] != (".__class__",):
                 return True if _is_inst_tok(key[1]) else None
